@@ -213,13 +213,16 @@ def step (s : DS) (toks : List String) : DS × String :=
           match dec with
           | .error e => (s, showErr e ++ " cpis=-")
           | .ok decoded =>
+            let s0 := s
             let (r, st) := initValidate s.env ty (mode = "ifneeded") target fa enc { w := s.w, log := [] }
             let s := { s with w := st.w }
+            let wrapper := wrapperAfterInit s0.env ty (mode = "ifneeded") target fa enc { w := s0.w, log := [] } decoded
             match r with
             | .ok needed =>
-              ({ s with pending := some (ty, tkey, if needed then some enc else decoded) },
+              ({ s with pending := some (ty, tkey, wrapper) },
                s!"ok needed={showBool needed} cpis={showLog st.log}")
-            | .err e => (s, showErr e ++ " cpis=" ++ showLog st.log)
+            -- the decoded set survives a failed validation: its cleanup can still be run
+            | .err e => ({ s with pending := some (ty, tkey, wrapper) }, showErr e ++ " cpis=" ++ showLog st.log)
             | .panic => (s, "panic cpis=" ++ showLog st.log)
     | _, _, _ => (s, "bad-op")
   | ["cleanup"] =>
